@@ -126,7 +126,10 @@ func c19Run(env *core.Env, idx int) core.CaseResult {
 	cmd := exec.Command("python3-vt", filepath.Join(verifRootDir(), "py", "validate.py"), inPath, outPath)
 	var stderr bytes.Buffer
 	cmd.Stderr = &stderr
-	if err := cmd.Run(); err != nil {
+	core.WaitingForChild.Add(1)
+	err = cmd.Run()
+	core.WaitingForChild.Add(-1)
+	if err != nil {
 		res.Inconcl = "validator failed: " + err.Error() + " " + core.Abbrev(stderr.String(), 300)
 		return res
 	}
